@@ -28,6 +28,7 @@ fn pk_from_c5(p: &c5::Packet) -> Pk {
             sp: a.session_present,
             code: if a.code == c5::ConnectReturnCode::Success { 0 } else { 5 },
             recv_max: a.properties.as_ref().and_then(|p| p.receive_max),
+            server_ka: a.properties.as_ref().and_then(|p| p.server_keep_alive),
         },
         c5::Packet::Publish(p) => Pk::Publish {
             qos: p.qos as u8,
@@ -163,10 +164,10 @@ impl Proto for V5 {
     fn encode(pk: &Pk) -> Vec<u8> {
         let mut b = BytesMut::new();
         let p = match pk {
-            Pk::ConnAck { sp, code, recv_max } => {
-                let props = recv_max.map(|m| c5::ConnAckProperties {
+            Pk::ConnAck { sp, code, recv_max, server_ka } => {
+                let props = (recv_max.is_some() || server_ka.is_some()).then(|| c5::ConnAckProperties {
                     session_expiry_interval: None,
-                    receive_max: Some(m),
+                    receive_max: *recv_max,
                     max_qos: None,
                     retain_available: None,
                     max_packet_size: None,
@@ -177,7 +178,7 @@ impl Proto for V5 {
                     wildcard_subscription_available: None,
                     subscription_identifiers_available: None,
                     shared_subscription_available: None,
-                    server_keep_alive: None,
+                    server_keep_alive: *server_ka,
                     response_information: None,
                     server_reference: None,
                     authentication_method: None,
